@@ -41,6 +41,12 @@ func StorageSplit(rng *rand.Rand, lines []string) *filterlist.RuleStorage {
 	for i, p := range parts {
 		contents[i] = Lines(p)
 	}
+	if nl >= 2 && rng.Intn(5) == 0 {
+		// A list without a single rule (empty, or comments only) between two
+		// others.
+		at := 1 + rng.Intn(nl-1)
+		contents = append(contents[:at], append([]string{[]string{"", "! comments only\n# nothing else\n", "\n\n"}[rng.Intn(3)]}, contents[at:]...)...)
+	}
 
 	return Storage(contents...)
 }
